@@ -102,6 +102,61 @@ def _run_bounded(arg):
                     error="checker crash: " + traceback.format_exc(), seconds=time.time() - t0)
 
 
+def _child(fn, arg, conn):
+    try:
+        conn.send(fn(arg))
+    finally:
+        conn.close()
+
+
+def _died(kind, arg, why):
+    """the result of a task whose worker process ended without an answer (a solver crash, the kernel's OOM killer):
+    a checker error (exit 3), never a verdict - and never a hang"""
+    if kind == "unit":
+        return dict(unit=f"{arg[0]}[{arg[1]}]", functions=[], paths=0, aborted=0, vacuous_paths=0, covers=[],
+                    errors=[f"checker crash: {why}"], assumptions=[], seconds=0.0, obligations=[], notes=[], expected=[])
+    return dict(name=f"{arg[0]}.BOUNDED[{arg[1]}]", function="?", bound="?", cases=0, failures=[],
+                error=f"checker crash: {why}", seconds=0.0)
+
+
+def _run_tasks(tasks, jobs):
+    """one forked process per task, at most `jobs` at a time; results in task order. Unlike multiprocessing.Pool a worker
+    that dies (libz3 has overflowed its stack on deeply nested terms) does not leave the run waiting forever."""
+    from multiprocessing.connection import wait
+    ctx = mp.get_context("fork")
+    results = [None] * len(tasks)
+    pending = list(range(len(tasks)))
+    running = {}                      # recv connection -> (index, process)
+    retried = set()
+    while pending or running:
+        while pending and len(running) < jobs:
+            i = pending.pop(0)
+            kind, fn, arg = tasks[i]
+            r, w = ctx.Pipe(duplex=False)
+            p = ctx.Process(target=_child, args=(fn, arg, w), daemon=True)
+            p.start()
+            w.close()
+            running[r] = (i, p)
+        for r in wait(list(running), timeout=5):
+            i, p = running.pop(r)
+            kind, fn, arg = tasks[i]
+            try:
+                results[i] = r.recv()
+                p.join()
+            except (EOFError, OSError):
+                p.join()
+                code = p.exitcode
+                why = f"worker process ended by signal {-code}" if code is not None and code < 0 else f"worker process exited with code {code} and no result"
+                if kind == "unit" and i not in retried:
+                    retried.add(i)              # once more (a crash of the solver under load need not repeat)
+                    pending.append(i)
+                else:
+                    results[i] = _died(kind, arg, why)
+            finally:
+                r.close()
+    return results
+
+
 def _bounded_of(mod, tier):
     """the bounded stand-ins of a property; the thorough tier adds the encoder cross-checks (guards of the verifier)"""
     return list(getattr(mod, "BOUNDED", [])) + (list(getattr(mod, "THOROUGH_BOUNDED", [])) if tier == "thorough" else [])
@@ -123,13 +178,10 @@ def run_property(pid, tier="quick", seed=0, jobs=None):
     units = getattr(mod, "UNITS", [])
     bounded = _bounded_of(mod, tier)
     jobs = jobs or min(16, max(1, (os.cpu_count() or 4)))
-    ctx = mp.get_context("fork")
-    unit_results, bounded_results = [], []
-    with ctx.Pool(jobs) as pool:
-        ar1 = pool.map_async(_run_unit, [(modname, i) for i in range(len(units))], chunksize=1)
-        ar2 = pool.map_async(_run_bounded, [(modname, i, tier, seed) for i in range(len(bounded))], chunksize=1)
-        unit_results = ar1.get()
-        bounded_results = ar2.get()
+    tasks = [("unit", _run_unit, (modname, i)) for i in range(len(units))]
+    tasks += [("bounded", _run_bounded, (modname, i, tier, seed)) for i in range(len(bounded))]
+    results = _run_tasks(tasks, jobs)
+    unit_results, bounded_results = results[:len(units)], results[len(units):]
 
     # function-level frames: the state (fields of objects that existed before the call, module-level containers) each unit's
     # function writes, against the committed baseline frames.json (derived from the pinned code). A write outside the
